@@ -29,7 +29,7 @@ CLAIMS = {
                      '(multi-removal blocks, plans over several validators, oracle aggregation, genesis round trips); each path runs on 4 (quick) / 8 (thorough) fresh instances - every second one a node that first executes each event speculatively on a store branch it then abandons, sharing what the process keeps in memory (plan registry, keeper-level caches) -, every log position '
                      'records a hash of the raw key/value dump of every module store and a hash of result, error text, response bytes, ordered events and ordered validator updates per replica, and '
                      'TLC checks Agreement on the recorded trace.', technique='TLA+ replication spec checked by TLC; recorded multi-replica traces of spec behaviours validated by TLC',
-                note='Non-determinism is only seen if it manifests in the K runs (Go randomises map iteration per range loop, so a 3-element map order differs between two runs with probability 5/6). Fresh instances share one process.'),
+                note='Replicas of one process read the same wall clock, so that one source of non-determinism is looked for by a source scan (reads of time.Now / Since / Until outside telemetry calls, math/rand imports) run with the check - a guard next to the model-based check, not part of it. Non-determinism is only seen if it manifests in the K runs (Go randomises map iteration per range loop, so a 3-element map order differs between two runs with probability 5/6). Fresh instances share one process.'),
     'C19': dict(text='Bounded model over metadata classes (valid list, repeated channel, unknown field, differently-cased key, non-JSON, wrong type) x channel states (missing, fresh, in use, '
                      'taken) x challengers: GrantOnlyIf, ChallengerHandsOver and the admin frame condition hold; every transition runs through MsgCreateBridge/MsgUpdateMetadata/'
                      'MsgUpdateChallenger with the real hook.BridgeHook wired to an in-store channel/perm keeper.' + E3, note=COMMON_NOTE + ' The IBC channel and perm keepers are harness implementations of the hook interfaces (the real ones are not in this repository).'),
